@@ -587,7 +587,17 @@ func runC04(c *Ctx) {
 						}
 					}
 				}
-				// the non-nil edge must return (not continue)
+				// the non-nil edge must return (not continue); an edge that joins other paths at once (a break to the
+				// code behind the loop) has no block of its own and is not a return of this error
+				seenEdge := false
+				for _, b := range fn.Blocks {
+					if n, k := ff.KnownNil(b, u.Err); k && !n && len(b.Instrs) > 0 {
+						seenEdge = true
+					}
+				}
+				if !seenEdge {
+					ok = false
+				}
 				for _, b := range fn.Blocks {
 					if n, k := ff.KnownNil(b, u.Err); k && !n && len(b.Instrs) > 0 {
 						if _, isRet := b.Instrs[len(b.Instrs)-1].(*ssa.Return); !isRet {
